@@ -121,6 +121,48 @@ let lane_req args =
   let outs = run_calls true true (cleared, z_of_int 1) (pairs args) in
   String.concat " | " (List.map (function Some t -> show_tree (canon t) | None -> "local-error") outs)
 
+(* ---- controls and extended operations (C19) ---- *)
+let optb s = if s = "none" then None else Some (bytes_of_hex s)
+let show_rawctl (c : rawctl) = Printf.sprintf "%s/%d/%s" (hex_of_bytes c.r_oid) (if c.r_crit then 1 else 0) (match c.r_val with Some t -> hex_of_bytes (encode t) | None -> "none")
+let show_rawctl_b (c : rawctl_b) = Printf.sprintf "%s/%d/%s" (hex_of_bytes c.b_oid) (if c.b_crit then 1 else 0) (opt_hex c.b_val)
+let lane_ctl args =
+  match String.split_on_char '/' (List.hd args) with
+  | ["paged"; sz; ck; crit] -> let c = paged_results (z_of_decimal sz) (bytes_of_hex ck) in show_rawctl (if crit = "1" then make_critical c else c)
+  | ["syncreq"; m; ck; hint] -> show_rawctl (sync_request (if m = "1" then RefreshOnly else RefreshAndPersist) (optb ck) (hint = "1"))
+  | ["preread"; at] -> show_rawctl (pre_read (hexlist at))
+  | ["postread"; at] -> show_rawctl (post_read (hexlist at))
+  | ["assertion"; f] -> (match assertion_of (bytes_of_hex f) with Ok c -> show_rawctl c | Panic -> "panic")
+  | ["matched"; f] -> (match matched_values_of (bytes_of_hex f) with Ok c -> show_rawctl c | Panic -> "panic")
+  | ["proxy"; a] -> show_rawctl_b (proxy_auth (bytes_of_hex a))
+  | ["txnspec"; a] -> show_rawctl_b (txn_spec (bytes_of_hex a))
+  | ["managedsait"] -> show_rawctl_b manage_dsa_it
+  | ["relax"] -> show_rawctl_b relax_rules
+  | _ -> "BAD-ARGS"
+let show_exop (e : exop) = Printf.sprintf "%s/%s" (hex_of_bytes e.x_name) (match e.x_val with Some t -> hex_of_bytes (encode t) | None -> "none")
+let lane_exop args =
+  match String.split_on_char '/' (List.hd args) with
+  | ["whoami"] -> show_exop whoami | ["starttls"] -> show_exop starttls | ["starttxn"] -> show_exop start_txn
+  | ["passmod"; u; o; n] -> show_exop (passmod (optb u) (optb o) (optb n))
+  | ["endtxn"; id; c] -> show_exop (end_txn (bytes_of_hex id) (c = "1"))
+  | _ -> "BAD-ARGS"
+let lane_cresp args =
+  match args with
+  | ["paged"; v] -> (match parse_value parse_paged (bytes_of_hex v) with Ok (sz, ck) -> Printf.sprintf "size=%s cookie=%s" (decimal_of_z sz) (hex_of_bytes ck) | Panic -> "panic")
+  | ["syncstate"; v] -> (match parse_value parse_sync_state (bytes_of_hex v) with
+        | Ok ((st, uuid), ck) -> Printf.sprintf "state=%s uuid=%s cookie=%s" (match st with Present -> "present" | Add -> "add" | Modify -> "modify" | Delete -> "delete") (hex_of_bytes uuid) (opt_hex ck)
+        | Panic -> "panic")
+  | ["syncdone"; v] -> (match parse_value parse_sync_done (bytes_of_hex v) with Ok (ck, rd) -> Printf.sprintf "cookie=%s refresh_deletes=%b" (opt_hex ck) rd | Panic -> "panic")
+  | ["syncinfo"; t] -> (match parse_syncinfo (parse_tree t) with
+        | Ok (NewCookie c) -> "newcookie " ^ hex_of_bytes c
+        | Ok (RefreshDelete (ck, d)) -> Printf.sprintf "refreshdelete cookie=%s done=%b" (opt_hex ck) d
+        | Ok (RefreshPresent (ck, d)) -> Printf.sprintf "refreshpresent cookie=%s done=%b" (opt_hex ck) d
+        | Ok (SyncIdSet (ck, d, uu)) -> Printf.sprintf "syncidset cookie=%s deletes=%b uuids=%s" (opt_hex ck) d (list_str (fun x -> x) (List.sort compare (List.sort_uniq compare (List.map hex_of_bytes uu))))
+        | Panic -> "panic")
+  | ["readentry"; v] -> (match parse_read_entry (bytes_of_hex v) with Ok e -> Printf.sprintf "text=%s bin=%s" (show_amap e.e_attrs) (show_amap e.e_bin) | Panic -> "panic")
+  | ["whoami"; v] | ["starttxn"; v] -> (match parse_utf8_val (bytes_of_hex v) with Ok x -> "ok " ^ hex_of_bytes x | Panic -> "panic")
+  | ["passmod"; v] -> (match parse_passmod_resp (bytes_of_hex v) with Ok x -> "ok " ^ hex_of_bytes x | Panic -> "panic")
+  | _ -> "BAD-ARGS"
+
 let dispatch lane args =
   match lane with
   | "parse" -> lane_parse args
@@ -136,6 +178,9 @@ let dispatch lane args =
   | "helpers" -> lane_helpers args
   | "url" -> lane_url args
   | "req" -> lane_req args
+  | "ctl" -> lane_ctl args
+  | "exop" -> lane_exop args
+  | "cresp" -> lane_cresp args
   | _ -> "UNKNOWN-LANE"
 
 let () =
